@@ -503,6 +503,8 @@ func (rw *rewriter) walk(root ast.Node) {
 		case *ast.RangeStmt:
 			if rw.isChan(x.X) && !rw.nosim(x.Pos()) {
 				rw.rangeChan(x)
+			} else if !rw.nosim(x.Pos()) && rw.rangeMap(x) {
+				// (rewritten: sorted keys, Tick included)
 			} else {
 				rw.tick(x.Body)
 			}
@@ -694,6 +696,73 @@ func (rw *rewriter) rangeChan(x *ast.RangeStmt) {
 		first = fmt.Sprintf(" zsimrt.Tick(); var %s bool; %s, %s = zsimrt.Recv2(%d, %s); if !%s { break };", okv, rw.text(x.Key), okv, s, rc, okv)
 	}
 	rw.add(x.For, x.Body.Lbrace+1, hdr+first)
+}
+
+// rangeMap rewrites `for k, v := range m` over a map with an ordered basic key type into an iteration over the sorted
+// keys (`for _, k := range zsimrt.SortedKeys(m) { v, ok := m[k]; if !ok { continue }; ...`). The order in which the Go
+// runtime visits a map is random per process and invisible to the tape: where the loop body reaches a scheduling point
+// (pandora's templaters look every header up in a sync.Map) equal seeds diverged. A sorted visit is one of the orders
+// the language allows; entries deleted during the loop are skipped, entries added during it are not visited (both
+// allowed). Only side-effect-free map expressions (identifiers and field selections) are rewritten, since the
+// expression is evaluated once per iteration.
+func (rw *rewriter) rangeMap(x *ast.RangeStmt) bool {
+	if x.Body == nil || (x.Tok != token.DEFINE && x.Key != nil) {
+		return false
+	}
+	tv, ok := rw.info.Types[x.X]
+	if !ok || tv.Type == nil {
+		return false
+	}
+	mt, ok := tv.Type.Underlying().(*types.Map)
+	if !ok {
+		return false
+	}
+	kb, ok := mt.Key().Underlying().(*types.Basic)
+	if !ok || kb.Info()&(types.IsString|types.IsInteger) == 0 {
+		return false
+	}
+	var simple func(e ast.Expr) bool
+	simple = func(e ast.Expr) bool {
+		switch v := e.(type) {
+		case *ast.Ident:
+			_, isPkg := rw.info.Uses[v].(*types.PkgName)
+			return !isPkg
+		case *ast.SelectorExpr:
+			return simple(v.X)
+		case *ast.ParenExpr:
+			return simple(v.X)
+		case *ast.StarExpr:
+			return simple(v.X)
+		}
+		return false
+	}
+	if !simple(x.X) {
+		return false
+	}
+	rw.imports["zsimrt"] = "verifsim/simrt"
+	n := rw.off(x.Pos())
+	m := "(" + rw.text(x.X) + ")"
+	key := ""
+	if x.Key != nil {
+		key = rw.text(x.Key)
+	}
+	if key == "" || key == "_" {
+		key = fmt.Sprintf("_mk%d", n)
+	}
+	val := ""
+	if x.Value != nil && rw.text(x.Value) != "_" {
+		val = rw.text(x.Value)
+	}
+	okv := fmt.Sprintf("_mok%d", n)
+	hdr := fmt.Sprintf("for _, %s := range zsimrt.SortedKeys(%s) {", key, m)
+	first := ""
+	if val != "" {
+		first = fmt.Sprintf(" zsimrt.Tick(); %s, %s := %s[%s]; if !%s { continue };", val, okv, m, key, okv)
+	} else {
+		first = fmt.Sprintf(" zsimrt.Tick(); if _, %s := %s[%s]; !%s { continue };", okv, m, key, okv)
+	}
+	rw.add(x.For, x.Body.Lbrace+1, hdr+first)
+	return true
 }
 
 func (rw *rewriter) apply() []byte {
